@@ -1,6 +1,7 @@
 import FV.Props.Catalog
 import FV.VecRefine
 import FV.StrRefine
+import FV.VecObs
 /-! # C11 — FlatVec / FlatString = capacity-bounded Vec / String under every history
 
 `vecOp` is the operation as `stavec::GenericVec` performs it on the mapped bytes (the model the correspondence check compares
@@ -111,4 +112,36 @@ theorem C11_str_push (l : LenTy) (s : Slice) (hlen : l.size ≤ s.len) (hv : (st
 example : (strD ⟨1, 1, false⟩).validateU ⟨0, [1, 0x61, 9, 9]⟩ = .ok () ∧ utf8ValidUpTo 3 0 [0xC3, 0xA9] = none ∧
     vecOp ⟨⟨1, 1, false⟩, 1, 1, 3⟩ [1, 0x61, 9, 9] 1 (.pushBytes [0xC3, 0xA9]) = .ok ⟨.ok, [3, 0x61, 0xC3, 0xA9]⟩ ∧
     vecOp ⟨⟨1, 1, false⟩, 1, 1, 3⟩ [1, 0x61, 9, 9] 1 (.pushBytes [0x62, 0x63, 0x64]) = .ok ⟨.full, [1, 0x61, 9, 9]⟩ := by decide
+
+/-- **C11 (observable state after every history).** Start from any slice that validates as `FlatVec<T, L>` and apply any finite
+sequence of operations (arguments are element images). Then no step faults, the buffer keeps its length, and on the bytes left
+behind: the elements are those of the bounded `Vec` (`xs`), `len()` (the length field as `L` reads it) is `xs.length`, which is within
+the capacity; `size()` (the type's own size function) is the reference extent `ceil(DATA_OFFSET + size_of::<T>() * xs.length, ALIGN)`;
+and the geometry derived from the buffer — in particular the capacity — is the one derived before the history. -/
+theorem C11_history_observables (d : Dict) (l : LenTy) (hl : l.Law) (s : Slice)
+    (hlen : max l.size d.align ≤ s.len) (hv : (vecD d l).validateU s = .ok ()) (ops : List Op)
+    (hops : ∀ g, vecGeo d l s.len = .ok g → ∀ op ∈ ops, OpWF g op) :
+    ∃ g len bs' len', vecGeo d l s.len = .ok g ∧ l.readU s = .ok len ∧ vecRun g s.bytes len ops = some (bs', len') ∧
+      bs'.length = s.len ∧ vecGeo d l bs'.length = .ok g ∧
+      elemsOf g bs' len' = specRun g.cap (elemsOf g s.bytes len) ops ∧
+      len' = (specRun g.cap (elemsOf g s.bytes len) ops).length ∧ len' ≤ g.cap ∧
+      l.readU ⟨s.addr, bs'⟩ = .ok len' ∧
+      (vecD d l).size ⟨s.addr, bs'⟩ = .ok (ceilMul (max l.size d.align + d.ssize * len') (max l.align d.align)) := by
+  obtain ⟨g, len, hg, hr, hI, _, hgl⟩ := C11_valid_gives_invariant d d.ssize rfl l hl s hlen hv
+  obtain ⟨bs', len', hrun, hI', hlen', hel⟩ := C11_history g ops s.bytes len hI (hops g hg)
+  obtain ⟨hal, hsz⟩ := readU_ok_aligned l s len hr
+  have hsl : s.len = s.bytes.length := rfl
+  have hread : l.readU ⟨s.addr, bs'⟩ = .ok len' := by
+    have h := readU_of_dec l s.addr bs' g.S g.dOff (by omega) hal
+    have hdec := hI'.dec
+    unfold VecGeo.cfg at hdec
+    rw [hgl] at hdec
+    rw [h, hdec]
+  refine ⟨g, len, bs', len', hg, hr, hrun, by omega, by rw [hlen', ← hsl]; exact hg, hel, ?_, hI'.len_le, hread, ?_⟩
+  · rw [← hel]; simp
+  · simp only [vecD, hread, Bind.bind, Res.bind]
+    rfl
+
+/-- non-vacuity: `FlatVec<u16, u16>` [1] in a 7-byte buffer validates, and `push 2; push 3; pop` is a well-formed history -/
+example : (vecD (primD 2 2) L16).validateU ⟨0, [1,0, 1,0, 9,9, 9]⟩ = .ok () := by decide
 end FV.Props
